@@ -327,7 +327,7 @@ impl SourceCursor {
         }
         // Hex integer?
         if self.eq("0x") || self.eq_char('$') {
-            return flag * self.get_hex(def, true);
+            return flag.wrapping_mul(self.get_hex(def, true)); // def may be isize::MIN ("no value")
         }
         // Oct integer?
         if self.eq("0o") {
